@@ -241,3 +241,16 @@ func Recover(f func()) (panicked bool, msg string) {
 	f()
 	return
 }
+
+// EnvInt reads an integer environment variable.
+func EnvInt(name string, def int) int {
+	if s := os.Getenv(name); s != "" {
+		if v, err := strconv.Atoi(s); err == nil {
+			return v
+		}
+	}
+	return def
+}
+
+// Workers is the number of parallel workers to use (VERIF_WORKERS, default 8).
+func Workers() int { return EnvInt("VERIF_WORKERS", 8) }
